@@ -149,6 +149,12 @@ impl Engine for C09Engine {
         // C09: "never ... fails to terminate"
         true
     }
+    fn sweep(&self, tier: Tier, idx: u32, nworkers: u32) -> Option<SweepOut> {
+        Some(crate::c09b::c09_boundary_sweep(tier, idx, nworkers))
+    }
+    fn replay_sweep(&self, item: &Value) -> Vec<String> {
+        crate::c09b::replay_item(item)
+    }
     fn fuzz(&self) -> Option<FuzzSpec> {
         Some(FuzzSpec { target: "fz_misc", max_len: 109, target_prefix: vec![0], engine_prefix: vec![] })
     }
